@@ -185,11 +185,36 @@ Proved: sufficiency once the three unkeyed parts of the read-set agree — the i
 (`IndexFaithful`), the label map of the active graphs, and the hybrid/GEL + remaining quality inputs. -/
 theorem C05_t2_key_sufficient_partial {V : Type} (compute : T2Eff → V) (r r' : T2Raw)
     (hk : t2Key r = t2Key r')
-    (hIndexFaithful : r.indexVer = r'.indexVer → r.index = r'.index)
+    (hIndexFaithful : IndexVersionFaithful r r')
     (hLabelMap : r.labelMap = r'.labelMap) (hRest : r.rest = r'.rest) :
     t2Stage compute r = t2Stage compute r' := by
   have hv : r.indexVer = r'.indexVer := congrArg T2Key.indexVer hk
   simp only [t2Stage, t2Eff, hk, hIndexFaithful hv, hLabelMap, hRest]
+
+/-- Append-only `add` keeps the version faithful within one index object: along any history of adds the version
+counts the rows, so two moments of the same index with equal versions hold the same rows. -/
+theorem C05_index_append_version (m : MemIdx) (l : List (Nat × Nat)) :
+    (m.runAppend l).ver = m.ver + l.length ∧ (m.runAppend l).eps = m.eps ++ l := by
+  induction l generalizing m with
+  | nil => simp [MemIdx.runAppend]
+  | cons e l ih =>
+    have := ih (m.addAppend e)
+    simp only [MemIdx.runAppend, List.foldl_cons] at this ⊢
+    refine ⟨by rw [this.1]; simp [MemIdx.addAppend]; omega, by rw [this.2]; simp [MemIdx.addAppend]⟩
+
+theorem C05_index_append_version_faithful (m : MemIdx) (l1 l2 : List (Nat × Nat))
+    (h : (m.runAppend l1).ver = (m.runAppend (l1 ++ l2)).ver) : (m.runAppend l1).eps = (m.runAppend (l1 ++ l2)).eps := by
+  have a := C05_index_append_version m l1
+  have b := C05_index_append_version m (l1 ++ l2)
+  rw [a.1, b.1, List.length_append] at h
+  have : l2 = [] := List.length_eq_zero_iff.mp (by omega)
+  subst this; simp
+
+/-- Negation witness for an in-place upsert: the stored row changes, the version does not — the T2 key
+(`index_version` is its only memory component) cannot tell the two index contents apart. -/
+theorem C05_index_upsert_not_version_faithful :
+    ∃ (m : MemIdx) (ep : Nat × Nat), (m.addUpsert ep).ver = m.ver ∧ (m.addUpsert ep).eps ≠ m.eps :=
+  ⟨⟨[(1, 10), (2, 20)], 2⟩, (1, 11), by decide, by decide⟩
 
 /-- The owner filter is part of the key: requests with equal keys have the same owner scope and owner. -/
 theorem C05_t2_owner_keyed (r r' : T2Raw) (hk : t2Key r = t2Key r') :
@@ -222,6 +247,12 @@ example (compute : T2Eff → Nat) : t2Stage compute t2Sample = t2Stage compute t
 example : t2QText [32, 97, 32] [[99], [98]] = [97, 32, 98, 32, 99] := by decide
 example : t2QText [32, 97, 32] [] = [97] := by decide
 example : t2QText [] [[98]] = [98] := by decide
+
+/-- The same witness at the level of the T2 key: the request repeated after episode 1 was re-written in place. -/
+theorem C05_t2_key_insufficient_inplace_upsert :
+    ∃ r r' : T2Raw, t2Key r = t2Key r' ∧ ¬ IndexVersionFaithful r r' ∧ t2Stage id r ≠ t2Stage id r' :=
+  ⟨{ t2Sample with indexVer := 2, index := 1020 }, { t2Sample with indexVer := 2, index := 1120 },
+   by decide, by simp [IndexVersionFaithful], by decide⟩
 
 /-- Negation witness, dimension **label map** (a node label edited outside T1's reach). -/
 theorem C05_t2_key_insufficient_labelmap :
